@@ -622,6 +622,7 @@ def mutate(doc, r, v11):
              "two_roots", "text_after_root", "text_before_root", "bad_name", "etag_with_att", "space_after_lt", "cdata_outside_root",
              "ref_outside_root", "unterminated", "truncate", "bad_utf8", "decl_error", "nested_comment_end",
              "ns_unbound_prefix", "ns_dup_expanded", "ns_bad_decl", "ns_bad_qname", "ns_pi_colon",
+             "supp_in_name", "supp_in_name",
              "dtd_entity_use", "dtd_entity_use", "dtd_default", "dtd_syntax", "dtd_syntax", "dtd_misplaced", "dtd_bad_entity_value", "dtd_ns_colon", "dtd_ns_qname"]
     k = r.choice(kinds)
     if k in ("dtd_ns_colon", "dtd_ns_qname") and doc["doctype"] is not None:
@@ -820,13 +821,40 @@ def mutate(doc, r, v11):
             elif not close and r.chance(1, 3):
                 open_ = "<" + nm + atts + r.choice(["/ >", "/", "//>"])
         elif k == "bad_name":
-            bn = r.choice(["1a", "-a", ".a", "a b", "a%", "a!", "×", "a×", "̀a", "a←", "‿", "", "a;", "a퟿"])
+            bn = r.choice(["1a", "-a", ".a", "a b", "a%", "a!", "×", "a×", "̀a", "a←", "‿", "", "a;", "a퟿", "a\U000F0000", "\U000F0000a", "a\U0010FFFFb", "a\U000FFFFE"])
             open_ = "<" + bn + atts + (">" if close else "/>")
             if close: close = "</" + bn + ">"
         else:
             close = "</" + (e[3] if close else nm) + " zz='1'>"
             open_ = "<" + nm + atts + ">"
         setroot(("leaf", ("raw", open_ + body + (close or ""))))
+    elif k == "supp_in_name":
+        # a legal Char of planes 15/16 (never a NameChar) at a random position of a name at a random site
+        x = chr(r.choice(SUPP_NOT_NAME))
+        def spoil(nm):
+            pos = r.choice([0, len(nm), 1 + r.below(len(nm))]) if len(nm) > 1 else r.choice([0, 1])
+            return nm[:pos] + x + nm[pos:]
+        w = r.choice(["element", "attribute", "prefix", "local", "endtag", "pi", "newattr"])
+        e = as_pair(el); t = dict(e[1])
+        if w == "element":
+            t["name"] = spoil(t["name"]); setroot(("elem", t, e[2], t["name"], e[4]))
+        elif w == "endtag":
+            setroot(("elem", t, e[2], spoil(e[3]), e[4]))
+        elif w == "attribute" and t["atts"]:
+            atts = list(t["atts"]); i = r.below(len(atts)); a = dict(atts[i]); a["name"] = spoil(a["name"]); atts[i] = a; t["atts"] = atts
+            setroot(("elem", t, e[2], e[3], e[4]))
+        elif w == "prefix":
+            pfx = spoil("pq")
+            t["atts"] = list(t["atts"]) + [{"pre": " ", "name": "xmlns:" + pfx, "eq": ("", ""), "q": '"', "val": [("ch", "u")]}]
+            t["name"] = pfx + ":" + t["name"].replace(":", "_"); setroot(("elem", t, e[2], t["name"], e[4]))
+        elif w == "local":
+            t["atts"] = list(t["atts"]) + [{"pre": " ", "name": "xmlns:pq", "eq": ("", ""), "q": '"', "val": [("ch", "u")]}]
+            t["name"] = "pq:" + spoil(t["name"].replace(":", "_")); setroot(("elem", t, e[2], t["name"], e[4]))
+        elif w == "pi":
+            setroot(with_kid(el, ("leaf", ("pi", spoil("tgt"), "", "")), r))
+        else:
+            t["atts"] = list(t["atts"]) + [{"pre": " ", "name": spoil("zz"), "eq": ("", ""), "q": '"', "val": []}]
+            setroot(("elem", t, e[2], e[3], e[4]))
     elif k == "two_roots":
         d["post"] = list(doc["post"]) + [("raw", r.choice(["<b/>", "<a></a>", "<a>"]))]
     elif k == "text_after_root":
@@ -1058,6 +1086,49 @@ CORPUS = [
     (b"<!DOCTYPE a [<!ENTITY e '<b>'>]><a>&e;</b></a>", "fatal", "entity with partial markup"),
 ]
 
+# ---- supplementary-plane characters in names: production [4]/[4a] stop at #xEFFFF; planes 15/16 (U+F0000..U+10FFFF) are
+# legal Chars but never name characters.  In UTF-16 the boundary is the high surrogate DB7F | DB80, which the library tests
+# in several places (XMLReader::getName / getNCName / getQName, XMLChar::isValidName ...), one per name kind and position.
+SUPP_NAMECHARS = [0x10000, 0x20000, 0xE0000, 0xEFFFF]                              # NameStartChar and NameChar
+SUPP_NOT_NAME = [0xF0000, 0xFFFFD, 0xFFFFE, 0x100000, 0x10FFFD, 0x10FFFF]          # Char, but not NameChar
+
+def supp_matrix(thorough=False):
+    """every kind of name x initial / non-initial / final position x boundary code points x XML 1.0 / 1.1"""
+    out = []
+    good = SUPP_NAMECHARS if thorough else [0x10000, 0xEFFFF]
+    bad = SUPP_NOT_NAME if thorough else [0xF0000, 0xFFFFE, 0x10FFFF]
+    def names(ch):
+        return [("initial", ch + "b"), ("non-initial", "a" + ch + "b"), ("final", "ab" + ch)]
+    for v11 in (False, True):
+        decl = "<?xml version='1.1'?>" if v11 else ""
+        for cp in good + bad:
+            legal = cp in SUPP_NAMECHARS
+            ch = chr(cp)
+            for pos, N in names(ch):
+                docs = [
+                    ("element", "<%s/>" % N, None),
+                    ("element+endtag", "<%s x='1'>t</%s >" % (N, N), None),
+                    ("attribute", "<e %s='v'/>" % N, None),
+                    ("element prefix", "<%s:l xmlns:%s='u'/>" % (N, N), None),
+                    ("element local part", "<p:%s xmlns:p='u'></p:%s>" % (N, N), None),
+                    ("attribute prefix", "<e xmlns:%s='u' %s:a='1'/>" % (N, N), None),
+                    ("attribute local part", "<e xmlns:p='u' p:%s='1'/>" % N, None),
+                    ("PI target", "<?%s d?><e><?%s?></e>" % (N, N), None),
+                    ("DOCTYPE name", "<!DOCTYPE %s><%s/>" % (N, N), None),
+                    ("entity name", "<!DOCTYPE e [<!ENTITY %s 'v'>]><e a='&%s;'>&%s;</e>" % (N, N, N), None),
+                    ("declared element/attribute names", "<!DOCTYPE e [<!ELEMENT %s (#PCDATA|%s)*><!ATTLIST e %s CDATA #IMPLIED>]><e/>" % (N, N, N), None),
+                    ("notation name", "<!DOCTYPE e [<!NOTATION %s SYSTEM 'x'>]><e/>" % N, None),
+                    # the end tag alone carries the character: never well-formed (Element Type Match at best)
+                    ("end tag only", "<ab></%s>" % N, "fatal"),
+                    ("end tag only, after the matching name", "<ab></ab%s>" % ch, "fatal"),
+                    ("undeclared entity reference", "<e>&%s;</e>" % N, "fatal"),
+                ]
+                for kind, body, force in docs:
+                    exp = force or ("ok" if legal else "fatal")
+                    out.append({"bytes": enc(decl + body), "expect": exp,
+                                "kind": "supp:%s:%s:U+%X:%s" % (kind, pos, cp, "1.1" if v11 else "1.0")})
+    return out
+
 # documents parsed one after the other by the SAME parser objects; the verdict of the last one is judged
 SEQUENCES = [
     ([b"<?xml version='1.1'?><a/>"], b"<a>\x7f</a>", "1.0 document after a 1.1 document: DEL is a legal character"),
@@ -1189,7 +1260,10 @@ def correspondence(ctx):
     # ---- (2) generated documents
     n_valid, n_mal = (8000, 16000) if th else (350, 750)
     cases, cov, mk = gen_streams(ctx, n_valid, n_mal)
-    cases = [{"bytes": b, "expect": e, "kind": "corpus:" + w} for b, e, w in CORPUS] + cases
+    supp = supp_matrix(th)
+    cases = [{"bytes": b, "expect": e, "kind": "corpus:" + w} for b, e, w in CORPUS] + supp + cases
+    stats["supplementary_name_matrix"] = {"documents": len(supp), "code_points": sorted({c["kind"].split(":")[3] for c in supp}),
+                                          "rule": "15 name kinds x initial/non-initial/final x XML 1.0/1.1, every configuration"}
     res, crashes = run_cases(ctx, cases, cfgword)
     best = {}
     hist = {"ok": 0, "nsfatal": 0, "fatal": 0, "unsupported": 0}
@@ -1208,7 +1282,8 @@ def correspondence(ctx):
             if tok.startswith("fatal:"):
                 nm = code_name(tok).split("+")[0].split("!")[0]
                 elicited[nm] = elicited.get(nm, 0) + 1
-        record(ctx, best, c, ref, o, bad, "generated stream" if not c["kind"].startswith("corpus") else "curated corpus")
+        record(ctx, best, c, ref, o, bad, "curated corpus" if c["kind"].startswith("corpus") else
+               ("supplementary-plane name matrix, " + c["kind"][5:]) if c["kind"].startswith("supp:") else "generated stream")
         # generator expectation vs reference (spec disagreement: generator / renderer / reference bug)
         if cls != "unsupported" and c["expect"] is not None and cls != c["expect"]:
             k = "%s:expected-%s-reference-%s" % (c["kind"], c["expect"], cls)
@@ -1252,7 +1327,8 @@ def correspondence(ctx):
     stats["distinct_nontrivial"] = len(distinct) + eh["ok"] + eh["nsfatal"]
     stats["fatal_codes_elicited"] = dict(sorted(elicited.items(), key=lambda kv: -kv[1]))
     stats["fatal_codes_reachable_never_triggered"] = sorted(set(REACHABLE) - set(elicited))
-    for k in (0, 8, len(CORPUS) + 1, len(CORPUS) + 2, len(CORPUS) + n_valid + 3, len(CORPUS) + n_valid + 4):
+    base = len(CORPUS) + len(supp)
+    for k in (0, 8, len(CORPUS) + 7, base + 1, base + 2, base + n_valid + 3, base + n_valid + 4):
         if k < len(cases):
             ctx.samples.append({"doc": show(cases[k]["bytes"]), "kind": cases[k]["kind"], "reference": res[k][0][:80], "impl": " ".join(sorted(set(code_name(x) for x in parse_obs(res[k][1]).values())))[:120]})
 
@@ -1308,7 +1384,7 @@ def search(ctx, broken):
             return f
     # (ii) the generator corpus at a larger budget, judged by the reference alone
     cases, _, _ = gen_streams(ctx, 400, 900)
-    cases = [{"bytes": b, "expect": e, "kind": "corpus:" + w} for b, e, w in CORPUS] + cases
+    cases = [{"bytes": b, "expect": e, "kind": "corpus:" + w} for b, e, w in CORPUS] + supp_matrix() + cases
     res, _ = run_cases(ctx, cases, cfgword)
     best = {}
     for c, (ref, o, bad) in zip(cases, res):
